@@ -11,11 +11,14 @@ the Lean driver and diffs the outputs line by line.
 """
 from __future__ import annotations
 
+import functools
 import math
 import os
+import pickle
 import random
 import subprocess
 import sys
+import tempfile
 import traceback
 import warnings
 from pathlib import Path
@@ -110,6 +113,11 @@ def install():
     Learner2D._fill_stack = _patched_fill
 
 
+def _is_gzip(fname):
+    with open(fname, "rb") as f:
+        return f.read(2) == b"\x1f\x8b"
+
+
 def value_of(case, p):
     x, y = p
     k = case["fn"]
@@ -162,7 +170,8 @@ def execute(case, script=None):
     warnings.simplefilter("ignore")
     install()
     rng = random.Random(case["seed"])
-    l = Learner2D(lambda p: value_of(case, p), BOUNDS[case["bounds"]])
+    # the learner's function is a partial of a module-level function: picklable by the standard pickle as well
+    l = Learner2D(functools.partial(value_of, dict(case)), BOUNDS[case["bounds"]])
     r = Rec(l)
     _REC = r
     try:
@@ -245,6 +254,42 @@ def _execute(case, rng, l, r, script):
 
         return emit(lambda: "l2d remove_unfinished", do, "remove_unfinished")
 
+    def do_restore(how):
+        """replace the real learner by a restored one and continue the history on it.
+        how = 'copy_from': fresh `new()` learner filled by `copy_from`; 'file': `save` to a file, `load` into a fresh `new()`
+        learner; 'pickle': `pickle.loads(pickle.dumps(learner))`"""
+        def do():
+            nonlocal l
+            old = l
+            bits = lambda d: [(tuple(map(float, p)), f2b(v)) for p, v in d.items()]  # noqa: E731  (NaN-proof comparison)
+            stack_before, data_before = bits(old._stack), bits(old.data)
+            if old.pending_points:
+                r.count(f"restore_{how}_with_pending_points")
+            if how == "pickle":
+                new = pickle.loads(pickle.dumps(old))
+            elif how == "copy_from":
+                new = old.new()
+                new.copy_from(old)
+            else:
+                new = old.new()
+                with tempfile.TemporaryDirectory() as td:
+                    fname = os.path.join(td, "l2d.pickle")
+                    compress = rng.random() < 0.5
+                    old.save(fname, compress=compress)
+                    assert _is_gzip(fname) == compress
+                    new.load(fname, compress=compress)
+            assert new is not old
+            if bits(new._stack) != stack_before:
+                r.count(f"restore_{how}_changed_stack")
+            if bits(new.data) != data_before:
+                r.count(f"restore_{how}_CHANGED_DATA")
+            if new.pending_points:
+                r.count(f"restore_{how}_KEPT_PENDING")
+            l = new
+            r.l = new
+
+        return emit(lambda: "l2d pickle" if how == "pickle" else "l2d save_load", do, "restore_" + how)
+
     if script is not None:
         for op in script:
             if op[0] == "ask":
@@ -260,6 +305,8 @@ def _execute(case, rng, l, r, script):
                 ok = do_tp(tuple(float(x) for x in op[1]), "tell_pending_script")
             elif op[0] == "remove_unfinished":
                 ok = do_ru()
+            elif op[0] == "restore":
+                ok = do_restore(op[1])
             else:
                 raise ValueError(op)
             if not ok:
@@ -270,6 +317,12 @@ def _execute(case, rng, l, r, script):
     while nops < case["nops"]:
         x = rng.random()
         nops += 1
+        if x < 0.10:  # ~5% file restores (copy_from / save+load), ~5% pickle round trips, anywhere in the history
+            ok = do_restore("pickle" if x < 0.05 else rng.choice(["copy_from", "file"]))
+            if not ok:
+                break
+            continue
+        x = (x - 0.10) / 0.90
         if x < 0.30:
             n = rng.choice([1, 1, 2, 3, 4, 5, 6, 7, 8, 9, 10, 11, 12, 13])
             ok = do_ask(n, rng.random() < 0.6)
@@ -336,6 +389,17 @@ CORPUS = [
                 ["ask", 3, 1], ["tell_all"], ["ask", 2, 1]]},
     {"name": "nocommit_then_tell_stale_stack", "seed": 1, "nops": 0, "bounds": 0, "fn": "ring",
      "script": [["ask", 5, 0], ["tell", (0.2, -0.7)], ["ask", 4, 1], ["tell_all"], ["ask", 3, 0], ["ask", 3, 1]]},
+    # restores at a quiescent point (nothing pending): the file restore drops the stale stack, the pickle keeps it
+    {"name": "restore_quiescent_file", "seed": 1, "nops": 0, "bounds": 1, "fn": "smooth",
+     "script": [["ask", 6, 1], ["tell_all"], ["restore", "file"], ["ask", 3, 1], ["tell_all"], ["restore", "copy_from"],
+                ["ask", 2, 1]]},
+    {"name": "restore_quiescent_pickle", "seed": 1, "nops": 0, "bounds": 1, "fn": "smooth",
+     "script": [["ask", 6, 1], ["tell_all"], ["restore", "pickle"], ["ask", 3, 1], ["tell_all"], ["restore", "pickle"],
+                ["ask", 2, 1]]},
+    # restores with points outstanding: the pending set is lost either way (the outstanding points are told afterwards)
+    {"name": "restore_with_pending", "seed": 1, "nops": 0, "bounds": 0, "fn": "ring",
+     "script": [["ask", 7, 1], ["restore", "pickle"], ["ask", 3, 1], ["tell_all"], ["ask", 5, 1], ["restore", "file"],
+                ["ask", 4, 1], ["tell_all"], ["remove_unfinished"], ["restore", "copy_from"], ["ask", 2, 0]]},
 ]
 
 # ---------------------------------------------------------------- lock-step against the Lean driver
